@@ -12,7 +12,10 @@ RUNNER_NOTE = ("Trusted: Coq kernel + vm_compute; hand-written model Runner.v of
                "translated _RetryState._handle_failure, sleep protocol and loop bodies of sync_core.py/async_core.py: pyir_failure.py + "
                "PyIRF.v, pyir_sleep.py + PyIRS.v, pyir_loop.py + PyIRL.v, pyir_state.py + PyIRE.v are trusted for that); scripted-world Python driver, virtual "
                "clock, hand-driven coroutines, a real asyncio loop on virtual time under attempt_timeout_s; assumptions: time passes "
-               "only in operation and sleeper, decision callbacks do not raise, 1/64 s time grid.")
+               "only in operation and sleeper, decision callbacks do not raise, 1/64 s time grid. Parts that evaluate single clauses of a "
+               "property on the implementation alone, for worlds the model does not have (hooks or record_failure() that take time; faults "
+               "in every callback), support the search for a failing input and are marked as such in the evidence (slow_hook_scripts, "
+               "slow_record_scripts, fault_injection_outside_model).")
 
 CHECKS = {
     "C01": (
